@@ -45,7 +45,7 @@ class RetDef:
 
 class Edge:
     """one outgoing edge of a switch"""
-    __slots__ = ("block", "target", "cond", "line", "leads", "values", "raw", "is_otherwise")
+    __slots__ = ("block", "target", "cond", "line", "leads", "values", "raw", "is_otherwise", "virtual", "inner_dom", "inner_conds", "home", "home_g", "home_edge", "mapping")
 
     def __repr__(self):
         return "Edge(bb%d->bb%d %s leads=%s)" % (self.block, self.target, fmt_cond(self.cond),
@@ -69,7 +69,7 @@ def fmt_cond(c):
 
 
 class FnGuards:
-    def __init__(self, prog, fn):
+    def __init__(self, prog, fn, _depth=0):
         self.prog = prog
         self.fn = fn
         self.body = fn.body
@@ -77,6 +77,10 @@ class FnGuards:
         self.retdefs = self._retdefs()
         self._reach_cache = {}
         self.edges = self._edges()
+        for e in self.edges:
+            e.virtual, e.inner_dom, e.inner_conds, e.home, e.home_g, e.home_edge, e.mapping = False, True, (), None, None, None, None
+        if _depth < 2 and getattr(prog, "unknown_helpers", None):
+            self.edges += self._virtual_edges(_depth)
 
     # -- return definitions
     def _retdefs(self):
@@ -148,6 +152,56 @@ class FnGuards:
             if b.blocks[t.otherwise].term.kind == "unreachable" and not b.blocks[t.otherwise].stmts:
                 continue
             out.append(e)
+        return out
+
+    # -- refusals that live in a helper this function calls with `?`
+    def _virtual_edges(self, depth):
+        """Extract-function tolerance.  A private helper that did not exist when the rules were written (it is not in
+        /verif/baseline_fns.json) and whose Result is propagated with `?` contributes its refusing edges to the caller:
+        condition with the helper's parameters replaced by the actual arguments, located at the `?` of the call.
+        `inner_dom` records whether the edge dominates the helper's own accepting returns, `inner_conds` the (substituted)
+        conditions under which it is reached inside the helper."""
+        from expr import subst
+        out = []
+        unknown = self.prog.unknown_helpers
+        for ce in list(self.edges):
+            c = ce.cond
+            if c[0] != "variant" or c[2] != "Break" or not c[3]:
+                continue
+            sub = c[1]
+            if not (sub[0] == "call" and sub[4] == "std::ops::Try::branch" and sub[2]):
+                continue
+            kinds = set(rd.kind for rd in ce.leads)
+            if not kinds or not kinds <= {"err"}:
+                continue
+            inner = sub[2][0]
+            while isinstance(inner, tuple) and inner[0] == "call" and inner[1].split("::")[-1] in ("map_err", "ok_or", "ok_or_else") and inner[2]:
+                inner = inner[2][0]
+            if not (isinstance(inner, tuple) and inner[0] == "call"):
+                continue
+            cands = [x for x in unknown if x.body is not None and x.body.argc == len(inner[2]) and
+                     (x.id == inner[3] or x.id == inner[1] or strip_generics(x.id) == strip_generics(inner[3] or "") or strip_generics(x.id) == strip_generics(inner[1]))]
+            if len(cands) != 1:
+                continue
+            cf = cands[0]
+            mapping = {i + 1: a for i, a in enumerate(inner[2])}
+            g2 = FnGuards(self.prog, cf, depth + 1)
+            # where control continues in the caller when the helper returns Ok
+            cont = [x for x in self.edges if x.block == ce.block and x is not ce]
+            for e2 in g2.edges:
+                k2 = set(rd.kind for rd in e2.leads)
+                refusing = bool(k2) and k2 <= {"err"}
+                ve = Edge()
+                ve.block, ve.target, ve.line, ve.values, ve.is_otherwise = ce.block, ce.target, e2.line, e2.values, e2.is_otherwise
+                ve.raw = subst(e2.raw, mapping) if isinstance(e2.raw, tuple) else e2.raw
+                ve.cond = _subst_cond(e2.cond, mapping)
+                ve.leads = ce.leads if refusing else (list(ce.leads) if k2 & {"err"} else []) + [rd for x in cont for rd in x.leads]
+                ve.virtual = True
+                ve.home_g, ve.home_edge, ve.mapping = g2, e2, mapping
+                ve.inner_dom = e2.inner_dom and g2.dominates_accepts(e2)
+                ve.inner_conds = tuple(_subst_cond(x, mapping) for x in block_conditions(g2, e2.block)) + tuple(e2.inner_conds)
+                ve.home = cf
+                out.append(ve)
         return out
 
     def _variant_name(self, discr_expr, v):
@@ -234,6 +288,8 @@ class FnGuards:
         bypass: optional predicate on Edge; edges for which it holds are *allowed* ways around the
         guard (e.g. the `joint_rand_len() == 0` side of an enclosing if) and are removed first."""
         b = self.body
+        if getattr(edge, "virtual", False) and not edge.inner_dom:
+            return False
         acc = self.accept_defs(refusal_kinds)
         if not acc:
             return False
@@ -383,3 +439,57 @@ def phi_defs(g, local):
 
 def block_conditions(g, block):
     return [e.cond for e in necessary_edges(g, block)]
+
+
+def edge_conditions(g, e):
+    """conditions under which the branch of edge e is reached (for an edge borrowed from a helper: also the helper's)"""
+    return block_conditions(g, e.block) + list(getattr(e, "inner_conds", ()) or ())
+
+
+def strip_generics(p):
+    """`a::B::<T, U>::c` -> `a::B::c` (call paths carry instantiations, function ids carry declarations)"""
+    out, depth = [], 0
+    i = 0
+    while i < len(p):
+        ch = p[i]
+        if ch == "<" and (i >= 2 and p[i - 2:i] == "::"):
+            depth += 1
+            if depth == 1:
+                out = out[:-2]
+        elif ch == ">" and depth > 0:
+            depth -= 1
+            i += 1
+            continue
+        if depth == 0:
+            out.append(ch)
+        i += 1
+    return "".join(out)
+
+
+def _subst_cond(c, mapping):
+    from expr import subst
+    return tuple(subst(x, mapping) if isinstance(x, tuple) and x and isinstance(x[0], str) and x[0] not in ("Lt", "Le") else x for x in c)
+
+
+def dominates_accepts_deep(g, e, refusal=("err",), bypass=None):
+    """dominates_accepts for ordinary edges; for an edge borrowed from a helper: the `?` of the call dominates the caller's
+    accepting returns AND the edge dominates the helper's own accepting returns (bypass applied to substituted conditions)"""
+    if not getattr(e, "virtual", False):
+        return g.dominates_accepts(e, refusal, bypass)
+    class _Outer:
+        pass
+    o = _Outer()
+    o.block, o.target, o.virtual, o.inner_dom = e.block, e.target, False, True
+    outer = g.dominates_accepts(o, refusal, bypass)
+    if bypass is None:
+        inner = e.home_g.dominates_accepts(e.home_edge, refusal)
+    else:
+        class _W:
+            pass
+        def bp(ed):
+            w = _W()
+            w.cond = _subst_cond(ed.cond, e.mapping)
+            w.block, w.target = ed.block, ed.target
+            return bypass(w)
+        inner = e.home_g.dominates_accepts(e.home_edge, refusal, bp)
+    return outer and inner
